@@ -122,6 +122,11 @@ class Model(object):
             if rel.startswith('elftools/'):
                 tree = self.trees[rel]
                 ref = canon.reference().get(rel)
+                if ref is not None and '__globals__' in ref:
+                    # N27: a new module-level table that folds arms of a dispatch chain is unfolded again
+                    k = inline.expand_table_dispatch(tree, set(ref['__globals__']))
+                    if k:
+                        self.inlined.append((rel, 'table dispatch unfolded', [k]))
                 if ref is not None and '__functions__' in ref:
                     # N11: helpers the reference tree does not have are expanded at their call sites (sa/inline.py)
                     n, names = inline.inline_new_helpers(tree, set(ref['__functions__']))
